@@ -795,6 +795,7 @@ func (x *Exec) siteClauses(fr *Frame, st *State, call *ssa.CallCommon, instr ssa
 		}
 		name := x.siteName(fmt.Sprintf("%s/site.%s.%s@%s", x.prog.relName(x.topFn), c.Callee, lbl, x.srcText(instr)))
 		x.oblige(st, "site", name, c.Tags, instr.Pos(), g)
+		x.smt.Assert(implies(st.pc, g)) // proven here, available afterwards (intermediate assertion)
 	}
 }
 
@@ -805,7 +806,40 @@ func shortPkgOfType(t types.Type) string {
 	return types.TypeString(t, nil)
 }
 
+func ghostMapRegion(gm *GhostMap) (string, string, string) {
+	ks := scalarSort(ghostType(gm.Key))
+	vs := scalarSort(ghostType(gm.Val))
+	return "map:" + ks + ":ghost." + gm.Name, ks, vs
+}
+
 func (x *Exec) applyGhostSet(st, old *State, c *Clause, pkg *types.Package, env map[string]Val) {
+	if i := strings.Index(c.Targets[0], "("); i > 0 {
+		name := strings.TrimSpace(c.Targets[0][:i])
+		gm := x.prog.contracts.GhostMaps[name]
+		if gm == nil {
+			x.unsupported("ghostset: unknown ghost map %s", name)
+			return
+		}
+		keyText := strings.TrimSuffix(strings.TrimSpace(c.Targets[0][i+1:]), ")")
+		kn, err := parseSpec(keyText)
+		if err != nil {
+			x.unsupported("ghostset %s: %v", name, err)
+			return
+		}
+		sc := &specCtx{x: x, pkg: pkg, env: env, st: st, old: old}
+		kv := sc.node(kn)
+		vv := sc.node(c.Expr)
+		reg, _, vs := ghostMapRegion(gm)
+		if len(kv.L) != 1 || len(vv.L) != 1 {
+			x.unsupported("ghostset %s: composite key or value", name)
+			return
+		}
+		if vv.Const != nil {
+			vv = sc.coerce(vv, ghostType(gm.Val))
+		}
+		x.heapWrite(st, reg, vs, "#x00000001", kv.L[0], vv.L[0])
+		return
+	}
 	g := strings.TrimPrefix(c.Targets[0], "#")
 	cur, ok := st.ghost[g]
 	if !ok {
